@@ -186,6 +186,11 @@ def solve_checks(ctx, node, case, collect):
         res = float(np.linalg.norm(ref.M @ x - bw) / max(np.linalg.norm(bw), 1e-300)) if x.shape == xs.shape else None
         collect("inv-product", bool(ok), {"rel_err": rel(x, xs) if x.shape == xs.shape else None, "bound": bound,
                                           "rel_residual": res, "cond": cond, "shape": list(x.shape)})
+    if not is_err(x) and b.ndim >= 1:
+        from harness.reuse import reuse_checks
+        b_other = P.operand(case["seed"] + 17, b.shape, case["bdt"], "normal")
+        reuse_checks(ctx, lambda: L.inv(A, *alg), b if case["seed"] % 2 else b.reshape(n, -1), b_other if case["seed"] % 2 else b_other.reshape(n, -1),
+                     "inv", {"alg": case["alg"], "iterative": iterative}, rel_tol=max(1e-6, 100 * case["tol"]) if iterative else 1e-9)
     rules1 = dict(DISPATCH.rules)
     x2 = ctx.call(L.solve, A, b, *alg)
     solve_rules = sorted(r for r, c in DISPATCH.rules.items() if r.startswith("inv(") and c > rules1.get(r, 0))
